@@ -24,6 +24,11 @@ func G(fn *ssa.Function, pat string, want bool) Guard {
 	return Guard{Desc: fmt.Sprintf("[%s]=%v", pat, want), Edges: CondEdges(fn, pat, want)}
 }
 
+// GD is G on the deep rendering (call arguments shown).
+func GD(fn *ssa.Function, pat string, want bool) Guard {
+	return Guard{Desc: fmt.Sprintf("[%s]=%v", pat, want), Edges: CondEdgesDeep(fn, pat, want)}
+}
+
 // GCallOK: the success (nil error) edges of every call in fn matching pat.
 func GCallOK(fn *ssa.Function, pat string) Guard {
 	g := Guard{Desc: "success edge of " + pat}
@@ -511,4 +516,35 @@ func (c *Ctx) CutEdges(fn *ssa.Function, desc string, edges []Edge, g Guard) boo
 	}
 	c.OK(fn, site, posOf(edges[0].From.Instrs[len(edges[0].From.Instrs)-1]), fmt.Sprintf("all %d edge(s) lie behind the guard", len(edges)))
 	return true
+}
+
+// ErrChecked (R11): the error result of each call site is consumed (tested,
+// returned, stored or passed on) rather than discarded.
+func (c *Ctx) ErrChecked(fn *ssa.Function, call ssa.CallInstruction) bool {
+	site := "errcheck{" + calleeName(call.Common()) + "}"
+	if _, isDefer := call.(*ssa.Defer); isDefer {
+		c.Violation(fn, site, call.Pos(), "error result of a deferred call is discarded", nil)
+		return false
+	}
+	ev := ErrValue(call)
+	if ev == nil {
+		c.Violation(fn, site, call.Pos(), "the error result is discarded", nil)
+		return false
+	}
+	if refs := ev.Referrers(); refs == nil || len(nonDebugRefs(*refs)) == 0 {
+		c.Violation(fn, site, call.Pos(), "the error result is never used", nil)
+		return false
+	}
+	c.OK(fn, site, call.Pos(), "error result is consumed")
+	return true
+}
+
+func nonDebugRefs(rs []ssa.Instruction) []ssa.Instruction {
+	var out []ssa.Instruction
+	for _, r := range rs {
+		if _, ok := r.(*ssa.DebugRef); !ok {
+			out = append(out, r)
+		}
+	}
+	return out
 }
